@@ -368,3 +368,149 @@ def pmap(ctx, fn, jobs):
                 ctx.machinery("a worker process died while executing %s (killed or crashed)" % fn.__name__)
     finally:
         ex.shutdown(wait=True, cancel_futures=True)
+
+
+# ------------------------------------------------------------------ in-context pumping (spec: Zones, PumpUnits)
+ZONES = {
+    "tag-attr": ("<span ", ">x</span>"),
+    "unknown-tag-attr": ("<foo ", ">x</foo>"),
+    "closing-tag-attr": ("<b>x</b ", ">"),
+    "ext-tag-attr": ("<ref ", ">x</ref>"),
+    "opaque-tag-attr": ("<source ", ">x</source>"),
+    "attr-value": ('<span class="', '">x</span>'),
+    "table-attr": ("{| ", "\n| x\n|}\n"),
+    "row-attr": ("{|\n|- ", "\n| x\n|}\n"),
+    "cell-attr": ("{|\n| ", " | x\n|}\n"),
+    "header-cell-attr": ("{|\n! ", " | x\n|}\n"),
+    "caption-attr": ("{|\n|+ ", " | x\n|-\n| y\n|}\n"),
+    "link-target": ("[[", "]]"),
+    "link-label": ("[[a|", "]]"),
+    "image-option": ("[[Image:a.png|", "|x]]"),
+    "url": ("http://ex.org/", " x"),
+    "bracket-url": ("[http://ex.org/", " x]"),
+    "bracket-url-label": ("[http://ex.org/ ", "]"),
+    "mailto": ("mailto:", "@ex.org"),
+    "entity-name": ("&", ";"),
+    "entity-number": ("&#", ";"),
+    "heading": ("== ", " ==\n"),
+    "list-item": ("* ", "\n"),
+    "pre-line": (" ", "\n"),
+    "comment": ("<!-- ", " -->"),
+    "template-name": ("{{", "}}"),
+    "template-arg": ("{{Echo|", "}}"),
+    "template-param": ("{{{", "}}}"),
+    "parser-function": ("{{#if:", "|y|n}}"),
+    "magic-word": ("__", "__"),
+    "nowiki-body": ("<nowiki>", "</nowiki>"),
+}
+UNITS = {"a": "a", "1": "1", "_": "_", "-": "-", ":": ":", "SP_a": " a", "=": "=", "a=": "a=", "QUOTE": '"',
+         "APOS": "'", "x": "x", "|": "|", "&": "&", ";": ";", "NONBMP": "\U0001F600", "/": "/"}
+ZONE_SIZES = (8, 16, 24, 32, 64)
+
+
+def check_zones(ctx, zones, units):
+    if set(zones) != set(ZONES) or set(units) != set(UNITS):
+        ctx.machinery("zone / unit tables of harness/wikitext.py disagree with WikiTokens.tla: %r %r"
+                      % (sorted(set(zones) ^ set(ZONES)), sorted(set(units) ^ set(UNITS))))
+
+
+def zone_text(zone, unit, n):
+    pre, suf = ZONES[zone]
+    return pre + UNITS[unit] * n + suf
+
+
+# ------------------------------------------------------------------ supervised children with a hard deadline
+def supervised(ctx, fn, chunks_, max_kills=6):
+    """Run fn(chunk, start_at, send) in one forked child per chunk (ctx.ncpu at a time).  The child
+    announces every unit of work with send(("start", index, deadline_seconds, info)) and reports with
+    send(("result", index, obj, None)).  The parent enforces the deadline from outside: a child that is
+    stuck where no signal handler can run (a backtracking regex inside C code) is KILLED, the unit is
+    reported as ("killed", index, deadline) and a new child continues after it.
+    Yields (chunk number, kind, index, payload)."""
+    import multiprocessing
+    import threading
+    import time as _time
+    from concurrent.futures import ThreadPoolExecutor
+    mp = multiprocessing.get_context("fork")
+    kills = [0]
+    lock = threading.Lock()
+
+    def child(chunk, start_at, conn):
+        try:
+            fn(chunk, start_at, conn.send)
+            conn.send(("end", None, None, None))
+        except BaseException as e:                                  # noqa: BLE001
+            try:
+                conn.send(("error", None, repr(e)[:500], None))
+            except Exception:                                       # noqa: BLE001
+                pass
+        finally:
+            conn.close()
+            os._exit(0)
+
+    def run_chunk(cn, chunk):
+        out = []
+        start_at = 0
+        while True:
+            with lock:
+                if kills[0] >= max_kills:
+                    out.append((cn, "skipped", start_at, None))
+                    return out
+            parent, kid = mp.Pipe(duplex=False)
+            p = mp.Process(target=child, args=(chunk, start_at, kid))
+            p.start()
+            kid.close()
+            current = None
+            ended = False
+            while True:
+                timeout = None if current is None else max(0.0, current[1] - _time.time())
+                try:
+                    ready = parent.poll(timeout if timeout is not None else 3600)
+                except (EOFError, OSError):
+                    ready = False
+                if not ready:
+                    if current is None:
+                        if p.is_alive():
+                            continue
+                        break
+                    # deadline passed: kill
+                    p.kill()
+                    p.join()
+                    with lock:
+                        kills[0] += 1
+                    out.append((cn, "killed", current[0], (current[2], current[3])))
+                    start_at = current[0] + 1
+                    break
+                try:
+                    kind, idx, payload, info = parent.recv()
+                except (EOFError, OSError):
+                    break
+                if kind == "start":
+                    current = (idx, _time.time() + payload, payload, info)
+                elif kind == "result":
+                    out.append((cn, "result", idx, payload))
+                    current = None
+                elif kind == "end":
+                    ended = True
+                    break
+                elif kind == "error":
+                    out.append((cn, "error", None, payload))
+                    ended = True
+                    break
+            parent.close()
+            if p.is_alive():
+                p.join(5)
+                if p.is_alive():
+                    p.kill()
+            if ended:
+                return out
+            if not out or out[-1][1] != "killed":
+                out.append((cn, "error", None, "child died without a report"))
+                return out
+
+    with ThreadPoolExecutor(ctx.ncpu) as ex:
+        for res in ex.map(lambda a: run_chunk(*a), list(enumerate(chunks_))):
+            for r in res:
+                if r[1] == "error":
+                    ctx.machinery("supervised worker failed: %s" % r[3])
+                yield r
